@@ -790,6 +790,7 @@ bool TypeAuditor::ViRecursion(Cursor iter) {
 
   { 
     const auto guard = noWarnings.CreateGuard();
+    auto isStable = false;
     for (auto retries = typeDeductionDepth; retries > 0; --retries) {
       ClearLocalVariables();
       if (!VisitChildDeclaration(iter, 0, std::get<Typification>(iterationValue.value()))) {
@@ -800,9 +801,20 @@ bool TypeAuditor::ViRecursion(Cursor iter) {
         return false;
       }
       if (std::get<Typification>(newIteration.value()) == std::get<Typification>(iterationValue.value())) {
+        isStable = true;
         break;
       }
       iterationValue = newIteration;
+    }
+    if (!isStable) {
+      // Note: the type of the step keeps changing with the type of the variable - the recursion has no type
+      OnError(
+        SemanticEID::typesNotEqual,
+        iter(iterationIndex).pos.start,
+        iterationValue.value(),
+        initType.value()
+      );
+      return false;
     }
   }
 
